@@ -151,7 +151,14 @@ func flipBiasedCoin(s bitStream, p float64) bool {
 	assert(p >= 0 && p <= 1)
 
 	i := s.beginGroup(coinFlipLabel, false)
-	f := genFloat01(s)
+	var f float64
+	if p == 0 {
+		// the outcome is forced (e.g. a collection that has to stop after too many rejected elements):
+		// record a zero block, which replays as "false" for any p < 1 once the rejected attempts are pruned
+		s.drawBits(0)
+	} else {
+		f = genFloat01(s)
+	}
 	s.endGroup(i, false)
 
 	return f >= 1-p
